@@ -7,7 +7,9 @@ on ANY survey (slot_readv) or write (slot_testv_and_readv_and_writev) call.
 Oracle from ground truth (share files parsed by an independent parser + the scheduler's log of
 which write calls were answered successfully): success  =>  the new version (seqnum, root hash) is
 held on disk by >= k distinct share numbers whose writes were acknowledged, and a fresh client
-reads back exactly the new contents.  A publish that could place fewer than k shares must errback.
+reads back exactly the new contents; no acknowledged write replaced a share that already existed on a server whose
+survey answer never reached the publisher (such a share is an unexpected version: the publisher cannot know what it
+overwrote).  A publish that could place fewer than k shares must errback.
 """
 from .. import boot, common, grid, lib_imm, lib_mut
 from ..lib_mut import pattern
@@ -34,11 +36,18 @@ def execute(case, prefix, seed):
         old = pattern(1, 30)
         new = pattern(2, 31)
         acked = set()
+        surveyed = set()       # servers from which a survey (slot_readv) answer reached the publisher
+        blind = []             # acknowledged writes over a share that existed on a server never surveyed successfully
+        pre = set()
 
         def observer(kind, ev, outcome):
+            if ev.meth == "slot_readv" and kind == "deliver" and outcome and outcome[0] == "ok":
+                surveyed.add(ev.conn.si)
             if ev.meth == "slot_testv_and_readv_and_writev" and kind == "deliver" and outcome and outcome[0] == "ok" and outcome[1][0]:
                 for sh in ev.args[2]:
                     acked.add((ev.conn.si, sh))
+                    if (ev.conn.si, sh) in pre and ev.conn.si not in surveyed:
+                        blind.append((ev.conn.si, sh))
         if op == "create":
             g.sched.observers.append(observer)
             b = lib_mut.create(g, fmt, new, explore=True)
@@ -46,6 +55,8 @@ def execute(case, prefix, seed):
         else:
             b0 = lib_mut.create(g, fmt, old)
             node = b0[0][1]
+            g.quiesce()
+            pre.update(lib_mut.mutable_shares(g, node.get_storage_index()))
             g.sched.observers.append(observer)
             b = g.wait(node.overwrite(MutableData(new)), explore=True)
         g.quiesce()
@@ -62,6 +73,11 @@ def execute(case, prefix, seed):
             obs["acked_shnums"] = len(holders)
             if len(holders) < k:
                 viol.append(("success-with-fewer-than-k-acknowledged-shares", "%s reported success but only share numbers %r of the newest version (seq %r) are on disk with an acknowledged write; k=%d; acked=%r" % (op, sorted(holders), newest[0], k, sorted(acked))))
+            if blind:
+                # the statement's "no unexpected version was encountered": a share this publisher was never told about
+                # (the survey of its server failed) was replaced and the publish still reports success - the
+                # test-and-set discipline did not see what it overwrote
+                viol.append(("success-after-overwriting-unsurveyed-share", "%s reported success although it overwrote share(s) %r (server, shnum) that existed before and whose server never answered the survey" % (op, sorted(set(blind)))))
             # a fresh client must be able to read the new contents
             c2 = g.clients[1]
             n2 = c2.create_node_from_uri(node.get_uri())
